@@ -128,7 +128,7 @@ def check_rotate_util(arr, r, corner, ctx):
     c = tuple(corner)
     ck = ckey(corner)
 
-    ra = lu.rotate_array_via_roe_corner_from(array=arr, roe_corner=c)
+    ra = ctx.impl("rotate-array/" + ck, lu.rotate_array_via_roe_corner_from, array=arr, roe_corner=c)
     want_ra = ref_rot_array(arr, corner)
     ctx.equal(ra, want_ra, "rotate-array/orientation/" + ck, "rotated array vs index-reflection reference")
     rra = lu.rotate_array_via_roe_corner_from(array=np.asarray(ra), roe_corner=c)
@@ -143,7 +143,8 @@ def check_rotate_util(arr, r, corner, ctx):
     Rs = []
     for form in ("tuple", "Region2D"):
         region_in = tuple(r) if form == "tuple" else aa.Region2D(region=tuple(r))
-        R = lu.rotate_region_via_roe_corner_from(region=region_in, shape_native=(h, w), roe_corner=c)
+        R = ctx.impl("rotate-region/" + ck, lu.rotate_region_via_roe_corner_from, region=region_in,
+                     shape_native=(h, w), roe_corner=c)
         ctx.check(isinstance(R, aa.Region2D), "rotate-region/type", "result is %s" % type(R).__name__)
         ctx.equal(rcoords(R), want_R, "rotate-region/reflection/" + ck, "rotated region (%s input) %s" % (form, r))
         # commutation, using the implementation's own rotation on both sides
@@ -153,7 +154,8 @@ def check_rotate_util(arr, r, corner, ctx):
                   "rot(arr)[rot(region)] vs rot(arr[region]) for region %s" % (r,))
         ctx.equal(np.asarray(ra)[R.slice], ref_rot_array(sub, corner), "rotate/commute-reference/" + ck,
                   "rot(arr)[rot(region)] vs reference rotation of arr[region] for region %s" % (r,))
-        RR = lu.rotate_region_via_roe_corner_from(region=R, shape_native=(h, w), roe_corner=c)
+        RR = ctx.impl("rotate-region/twice/" + ck, lu.rotate_region_via_roe_corner_from, region=R,
+                      shape_native=(h, w), roe_corner=c)
         ctx.equal(rcoords(RR), list(r), "rotate-region/involution/" + ck, "rotating region %s twice" % (r,))
         Rs.append(R)
     return ra, Rs[0]
@@ -184,21 +186,22 @@ def check_rotate_layout(arr, regions, corner, ctx):
     want = [None if r is None else ref_rot_region(r, (h, w), corner) for r in regions]
 
     kw = {s: (tuple(r) if r is not None else None) for s, r in zip(SLOTS, regions)}
-    L1 = aa.Layout2D.rotated_from_roe_corner(roe_corner=c, shape_native=(h, w), **kw)
+    L1 = ctx.impl("layout/rotated_from_roe_corner/" + ck, aa.Layout2D.rotated_from_roe_corner, roe_corner=c,
+                  shape_native=(h, w), **kw)
     ctx.check(layout_regions(L1) == want, "layout/rotated_from_roe_corner/" + ck,
               "regions %s -> %s want %s" % (regions, layout_regions(L1), want))
     ctx.check(tuple(L1.original_roe_corner) == c and tuple(L1.shape_2d) == (h, w),
               "layout/rotated_from_roe_corner/meta", "original_roe_corner / shape_2d not carried")
 
     L0 = make_layout((h, w), regions)
-    L2 = L0.new_rotated_from(roe_corner=c)
+    L2 = ctx.impl("layout/new_rotated_from/" + ck, L0.new_rotated_from, roe_corner=c)
     ctx.check(layout_regions(L2) == want, "layout/new_rotated_from/" + ck,
               "regions %s -> %s want %s" % (regions, layout_regions(L2), want))
     ctx.check(tuple(L2.original_roe_corner) == c and tuple(L2.shape_2d) == (h, w),
               "layout/new_rotated_from/meta", "original_roe_corner / shape_2d not carried")
     ctx.check(layout_regions(L0) == [None if r is None else list(r) for r in regions],
               "layout/new_rotated_from/mutates-input", "the source layout changed")
-    L3 = L2.new_rotated_from(roe_corner=c)
+    L3 = ctx.impl("layout/new_rotated_from/twice/" + ck, L2.new_rotated_from, roe_corner=c)
     ctx.check(layout_regions(L3) == [None if r is None else list(r) for r in regions],
               "layout/new_rotated_from/involution/" + ck, "rotating the layout twice: %s" % (layout_regions(L3),))
 
@@ -347,7 +350,7 @@ def check_extract_util(idx, r, win, ctx):
             ri, wi = tuple(r), tuple(win)
         else:
             ri, wi = aa.Region2D(region=tuple(r)), aa.Region2D(region=tuple(win))
-        got = lu.region_after_extraction(original_region=ri, extraction_region=wi)
+        got = ctx.impl("extract", lu.region_after_extraction, original_region=ri, extraction_region=wi)
         check_extract_one(idx, r, win, ctx, got, "extract", "region_after_extraction(%s)" % form)
 
 
@@ -356,7 +359,7 @@ def check_extract_layout(idx, regions, win, ctx, corner=None):
     h, w = idx.shape
     L = make_layout((h, w), regions, corner=corner)
     before = layout_regions(L)
-    E = L.layout_extracted_from(extraction_region=tuple(win))
+    E = ctx.impl("layout/layout_extracted_from", L.layout_extracted_from, extraction_region=tuple(win))
     ctx.check(layout_regions(L) == before, "layout/layout_extracted_from/mutates-input", "the source layout changed")
     if corner is not None:
         ctx.check(tuple(E.original_roe_corner) == tuple(corner), "layout/layout_extracted_from/meta",
@@ -897,9 +900,9 @@ def body_given_front_trailing(case, ctx):
 
 @st.composite
 def given_constructors(draw):
-    dim = draw(st.sampled_from([2, 2, 1]))
+    dim = draw(st.sampled_from([2, 1]))
     n = 2 * dim
-    kind = draw(st.sampled_from(["valid", "negative", "empty", "reversed", "any"]))
+    kind = draw(st.sampled_from(["valid", "valid", "negative", "empty", "reversed", "reversed", "any"]))
     big = draw(st.booleans())
     m = 5000 if big else 12
     t = []
